@@ -189,6 +189,15 @@ type writerRule struct {
 }
 
 var writerRules = map[string][]writerRule{
+	"C10": {{
+		Prop: "C10", What: "file-tree entries",
+		Pkgs:    []string{"x/filetree/keeper", "x/filetree"},
+		Writers: map[string]bool{"SetFiles": true, "RemoveFiles": true},
+		Recv:    map[string]bool{"Keeper": true, "msgServer": true},
+		Allow: map[string]string{
+			"x/filetree.InitGenesis": "genesis import (C19); not a transaction path",
+		},
+	}},
 	"C17": {
 		{
 			Prop: "C17", What: "the raw store of x/storage", View: "store",
